@@ -135,8 +135,12 @@ impl<'a> V<'a> {
                             let mut keys = BTreeSet::new();
                             let mut typename = false;
                             self.collect_root_keys(sel, &root, &mut keys, &mut typename, &mut BTreeSet::new());
-                            if keys.len() != 1 || typename {
+                            if keys.len() != 1 {
                                 self.out.push(f("sub.single_root", format!("{keys:?}")));
+                            } else if typename {
+                                // the root field must not be an introspection field: part of the same spec
+                                // rule, but not of "single root field" as the property statement words it
+                                self.out.push(f("sub.introspection_root", format!("{keys:?}")));
                             }
                         }
                         // 5.3.2 field merging (not implemented by nitrogql; used to filter inputs)
